@@ -29,6 +29,7 @@ def do_case(ctx, inp):
         ctx.op({"op": "encode", "t": t, "active": active},
                {"rows": rows_json(rows), "vars": avars, "safe": solver_safe(t)}, norm=norm_encode)
     n = inp.get("n_assign", 256 if ctx.quick else 2048)
+    seen = []
     for sigma in assignments(ctx.rng, lv, n):
         # a third of the assignments are handed over as numpy integer scalars of the narrowest width that holds them
         given = {k: np_scalar(ctx.rng, v) for k, v in sigma.items()} if ctx.rng.random() < 0.33 else sigma
@@ -51,6 +52,17 @@ def do_case(ctx, inp):
         if sat != (truth == 1):
             ctx.fail("active-system-vs-evaluate", {"sigma": sigma, "x": x, "rows_satisfied": sat, "evaluate": truth})
             return
+        if len(seen) < 64: seen.append((sigma, x, truth))
+    # the same model object encoded once more, after it has been evaluated: the statement holds for that polyhedron too
+    rows2, avars2 = poly_snap(o.to_ge_polyhedron(active=True))
+    if (rows_json(rows2), avars2) != (rows_json(polys[True][0]), polys[True][1]):
+        ctx.tags["encoding-after-evaluation-differs"] += 1
+        for sigma, x, truth in seen:
+            sat = all(row_ok(r, x) for r in rows2)
+            if sat != (truth == 1):
+                ctx.fail("active-system-vs-evaluate", {"sigma": sigma, "x": x, "rows_satisfied": sat, "evaluate": truth,
+                                                       "history": "evaluate_propositions on several assignments, then to_ge_polyhedron(active=True) on the same object"})
+                return
 
 
 def small_scope_cases(ctx):
